@@ -17,7 +17,7 @@ transaction coordinator, under scripted or seeded fault fates.  Returned (JSON-a
   group_offsets  committed offsets of the consumer group used with send_offsets_to_transaction
 
 Program ops: "begin", "send:<p>", "burst:<p>:<n>" (n concurrent send() calls), "offsets:<o>", "commit", "abort",
-"ctx_ok:<p>", "ctx_exc:<p>", "ctx_slow:<p>" (fire-and-forget send, body runs 0.6 s more), "sleep:<s>", "replace" (start instance B with the same transactional id; later ops with
+"move" / "gmove" (transaction / group coordinator moves to another broker), "ctx_ok:<p>", "ctx_exc:<p>", "ctx_slow:<p>" (fire-and-forget send, body runs 0.6 s more), "sleep:<s>", "replace" (start instance B with the same transactional id; later ops with
 prefix "B." go to it, unprefixed ones to A), "kill" (kill -9 of instance A).
 Partition "u" is a partition of an unauthorized topic (TopicAuthorizationFailed at AddPartitionsToTxn).
 """
@@ -237,12 +237,15 @@ def run_history(P):
                         kill_owner(loop, "A")
                     elif name == "move":
                         cl.move_coordinator(TXN_ID, 1)
+                    elif name == "gmove":
+                        # the GROUP coordinator (TxnOffsetCommit goes there) moves; the old node keeps answering NOT_COORDINATOR
+                        cl.move_coordinator(GROUP, 0)
                     else:
                         raise ValueError("harness: unknown op " + raw)
 
                 rec["txn"] = in_txn[who] if name in ("send", "burst", "offsets") else rec["txn"]
                 try:
-                    with owned(who if name not in ("replace", "kill", "move", "sleep") else "harness"):
+                    with owned(who if name not in ("replace", "kill", "move", "gmove", "sleep") else "harness"):
                         await asyncio.wait_for(run_op(), call_bound)
                     rec["outcome"] = "ok"
                 except asyncio.TimeoutError:
@@ -264,7 +267,10 @@ def run_history(P):
                 rec["n_after_settle"] = len(cl.events)
                 rec["t_settled"] = round(loop.time() - t0, 6)
                 if P.get("coordinator_moves") and rng.random() < 0.25:
-                    cl.move_coordinator(TXN_ID, 1)
+                    if rng.random() < 0.5:
+                        cl.move_coordinator(TXN_ID, 1)
+                    else:
+                        cl.move_coordinator(GROUP, 0)
             # ---- end: quiet, then let everything finish
             plan.enabled = False
             H["t_quiet"] = round(loop.time() - t0, 6)
